@@ -49,6 +49,7 @@ struct RunData {
   std::vector<StallWin> stalls;
   int64_t lastFaultT = 0;      // time of the last injected fault of the plan
   int64_t endT = 0;
+  int64_t settleNs = 60000000000LL;   // liveness bound used by the harness and the C04 oracle
   bool handlerDeleted = false;
   bool busLiveAtEnd = true;
 };
